@@ -3,6 +3,7 @@
 mod api;
 mod gc;
 mod node;
+mod txn;
 
 fn main() {
     std::panic::set_hook(Box::new(|_| {}));
@@ -27,6 +28,7 @@ fn mode_dispatch(args: &[String]) -> Result<(), String> {
         Some("gc-enum") => gc::enumerate(&args[2..]),
         Some("node") => node::run_stdin(),
         Some("api") => api::run_stdin(),
+        Some("txn") => txn::run_stdin(),
         _ => Err("usage: harness gc|gc-enum ...".into()),
     }
 }
